@@ -19,7 +19,14 @@
    `== zero`) NO input panics — for every dictionary, no hypothesis.  The correspondence runs
    this instrumented model for element type 4 (StrictRat, `/` panics on zero).
    `ops_of dv` is the dictionary of a mathcomp commutative ring R with division `dv`;
-   `mx_of dv n m` is the n x n matrix the routines read off a list of rows `m` (entry i j of m). *)
+   `mx_of dv n m` is the n x n matrix the routines read off a list of rows `m` (entry i j of m).
+   Third extension wave, builder GEN (appended block at the very end):
+   C07_generated_heap_step_matches_model ties Model/Perms.v `heaps` to the Rust TEXT of
+   heaps_permutations - tools/gen_arith.py re-translates the function on every run into the event
+   trace of one invocation (consumer call / recursive call with its argument / swap with its index
+   pair, in source order: base case, loop, guard `i < k - 1`, even / odd choice of the pair) and
+   Proofs/GenHeapP.v proves that running that trace with the recursive calls answered by
+   `heaps fuel` is `heaps (S fuel) k`, the function C07_heap_enumerates_all_n is about. *)
 From Coq Require Import PeanoNat List Permutation Ring_theory.
 From mathcomp Require Import all_ssreflect all_algebra.
 From EasyML Require Import Base.Sx Model.Num Model.Perms Model.LinAlg Model.DivOutcome Model.LinAlgDiv
@@ -259,3 +266,27 @@ Print Assumptions C07_inverse_instrumented_erase.
 Print Assumptions C07_inverse_divides_only_by_det.
 Print Assumptions C07_inverse_division_is_evaluated.
 Print Assumptions C07_inverse_never_divides_by_zero.
+
+(* ---- third extension wave (builder GEN): Heap's algorithm regenerated from the source ----
+   For every level k, recursion budget and state (the list, the consumer's calls so far, the
+   even_swaps toggle): heaps_permutations as generated from src/linear_algebra.rs (the event trace of
+   ONE invocation: (0, []) consumer(list); (1, [k']) recursive call at level k'; (2, [i; j])
+   list.swap(i, j)) neither panics nor wraps in either build profile, and running its events in
+   order - recursive calls answered by the model at the smaller budget - computes exactly one
+   level of Model/Perms.v `heaps`.  (GenHeapP.run_event reads the events; the consumer event is
+   with_each_permutation's closure: record (list, even_swaps), toggle even_swaps.) *)
+From EasyML Require Model.U64 Gen.Arith Proofs.GenHeapP.
+
+Theorem C07_generated_heap_step_matches_model :
+  forall (md : U64.mode) (fuel k : nat) (st : heap_state),
+  exists evs,
+    Arith.gen_heaps_permutations md (BinNat.N.of_nat k) = Ok evs /\
+    heaps (S fuel) k st = GenHeapP.run_trace (heaps fuel) evs st.
+Proof. exact GenHeapP.generated_heap_step_matches_model. Qed.
+
+(* non-vacuity: the generated traces of levels 3 (odd: swaps (0, 2)), 4 (even: swaps (i, 3)), 1 and 0
+   evaluated by the kernel, and heap_perms 3 recomputed by running the generated level-3 trace *)
+Example C07_generated_heap_nonvacuous : GenHeapP.heap_trace_example.
+Proof. exact GenHeapP.heap_trace_example_holds. Qed.
+
+Print Assumptions C07_generated_heap_step_matches_model.
